@@ -247,14 +247,23 @@ func unmarshalData(data []byte) (map[string]any, error) {
 }
 
 // decode decodes the configuration map into a configDefinition.
-func decode(cm map[string]any) (*definition, error) {
-	c := new(definition)
+func decode(cm map[string]any) (c *definition, err error) {
+	// mapstructure panics on some malformed documents (for example a
+	// non-string key in a nested mapping); report them as errors instead of
+	// crashing the process that loads the file.
+	defer func() {
+		if r := recover(); r != nil {
+			err = fmt.Errorf("invalid definition: %v", r)
+		}
+	}()
+
+	c = new(definition)
 	md, _ := mapstructure.NewDecoder(&mapstructure.DecoderConfig{
 		ErrorUnused: true,
 		Result:      c,
 		TagName:     "",
 	})
-	err := md.Decode(cm)
+	err = md.Decode(cm)
 
 	return c, err
 }
